@@ -448,3 +448,19 @@ Definition datetime_eq (a b : xdatetime) : bool := pn_eqb (datetime_timeline a) 
 (* XmlDuration / XmlPeriod are UserStrings: the value keeps value.strip() and str() returns it *)
 Definition duration_str (s : str) : option str := option_map (fun _ => py_strip s) (duration_parse s).
 Definition period_str (s : str) : option str := option_map (fun _ => py_strip s) (period_parse s).
+
+(* XmlDate / XmlTime / XmlDateTime.replace: a keyword left at None keeps the field; `offset` has the sentinel
+   `True` for "keep" (so `offset=None` REMOVES the offset).  The constructors do not validate, so replace is a
+   pure field update. *)
+Inductive off_arg := OffKeep | OffSet (o : option Z).
+Definition keep_z (new : option Z) (old : Z) : Z := match new with Some v => v | None => old end.
+Definition keep_off (a : off_arg) (old : option Z) : option Z := match a with OffKeep => old | OffSet o => o end.
+Definition date_replace (v : xdate) (y m d : option Z) (o : off_arg) : xdate :=
+  mk_xdate (keep_z y (d_year v)) (keep_z m (d_month v)) (keep_z d (d_day v)) (keep_off o (d_offset v)).
+Definition time_replace (v : xtime) (h mi s f : option Z) (o : off_arg) : xtime :=
+  mk_xtime (keep_z h (t_hour v)) (keep_z mi (t_minute v)) (keep_z s (t_second v)) (keep_z f (t_frac v))
+           (keep_off o (t_offset v)).
+Definition datetime_replace (v : xdatetime) (y m d h mi s f : option Z) (o : off_arg) : xdatetime :=
+  mk_xdatetime (keep_z y (dt_year v)) (keep_z m (dt_month v)) (keep_z d (dt_day v))
+               (keep_z h (dt_hour v)) (keep_z mi (dt_minute v)) (keep_z s (dt_second v)) (keep_z f (dt_frac v))
+               (keep_off o (dt_offset v)).
